@@ -5,10 +5,10 @@ from vlib import scenario, record
 
 LEVEL = "exploration"
 RULE = ("every evolventDensity m in 2..12 x every dimension N in 2..5 x boxes of every kind x objectives (cones, sines, linear, noise), the density given by constructor keyword, positionally, by attribute assignment, and by re-assigning it on one parameters object reused for several Solvers; each "
-        "global-phase trial point must satisfy ((y-lower)/side)*2^m - 1/2 = integer in [0,2^m) within 1e-6 (cell centres of different "
+        "global-phase trial point must satisfy ((y-lower)/side)*2^m - 1/2 = integer in [0,2^m) within a rounding-derived tolerance <= 4e-6 (cell centres of different "
         "densities never coincide, so membership in the configured grid excludes every other density). Non-trivial: >= 10 trials; "
         "distinct = (N, m, box kind, family, number of distinct cells visited).")
-ASSUMPTIONS = ["|lower|/side <= 1e6 keeps rounding of the affine map below 1e-9 cell widths for m <= 12", "refineSolution=False (refinement leaves the grid by design)"]
+ASSUMPTIONS = ["|lower|/side <= 1e6: rounding of the affine map stays below 4e-6 cell widths for m <= 12 (tolerance max(1e-6, 8 ulp(max|bound|)/side*2^m))", "refineSolution=False (refinement leaves the grid by design)"]
 
 
 def cases(tier, seed):
@@ -41,10 +41,13 @@ def cases(tier, seed):
 
 
 def grid_violations(glog, lo, side, m, dens, viol, cells):
+    # rounding of y = lower + u*side is a few ulp of max(|lower|,|upper|); in grid units that is ulp/side*2^m per axis
+    # (|lower|/side <= 1e6 and m <= 12 keep it below 4e-6; centres of any other density are >= 1/4 away)
+    tol = np.maximum(1e-6, 8.0 * np.spacing(np.maximum(np.abs(lo), np.abs(lo + side))) / side * (2.0 ** m))
     for e in glog:
         q = (e["y"] - lo) / side * (2.0 ** m) - 0.5
         j = np.rint(q)
-        if np.any(np.abs(q - j) > 1e-6) or np.any(j < 0) or np.any(j >= 2 ** m):
+        if np.any(np.abs(q - j) > tol) or np.any(j < 0) or np.any(j >= 2 ** m):
             if len(viol) < 3:
                 viol.append({"mech": "trial-off-configured-grid", "m": m, "evolvent_density_attr": dens, "point": e["y"].tolist(),
                              "grid_coordinate": q.tolist()})
